@@ -100,6 +100,27 @@ Proof.
 Qed.
 Print Assumptions C13_unknown_expression_macro.
 
+(* "at least as many arguments for expression macros": an invocation with fewer arguments than
+   the macro has parameters never has a value -- whether or not the body reads the parameter left
+   over -- and when the arguments that are there evaluate, the error names the first parameter
+   without argument (D32: before its `fix:` commit such an invocation was accepted when the body
+   did not read the parameter) *)
+Theorem C13_expression_macro_arity : forall labels macros f vs n args d v,
+  macros n = Some (Some d) -> (length args < length (em_params d))%nat ->
+  eval labels macros f vs (EMacro n args) <> Ok v.
+Proof. exact macro_arity. Qed.
+Print Assumptions C13_expression_macro_arity.
+
+Theorem C13_expression_macro_missing_argument : forall labels macros f vs n args d vals,
+  macros n = Some (Some d) -> (length args < length (em_params d))%nat ->
+  Forall2 (fun a v => eval labels macros (S f) vs a = Ok v) args vals ->
+  eval labels macros (S f) vs (EMacro n args) = err1 "UndefinedVariable" (nth (length args) (em_params d) "").
+Proof.
+  intros labels macros f vs n args d vals Hd Hl Hv. rewrite eval_macro, Hd.
+  rewrite (bind_args_missing labels macros (S f) vs args (em_params d) [] vals Hv Hl). reflexivity.
+Qed.
+Print Assumptions C13_expression_macro_missing_argument.
+
 Theorem C13_missing_argument : forall labels macros f x,
   eval labels macros f (Some []) (EVar x) = err1 "UndefinedVariable" x.
 Proof. intros. rewrite eval_var. reflexivity. Qed.
@@ -232,10 +253,12 @@ Example C13_example :
   ~ wf_program [ROp (AOp 0x60 (Some (EVar "x")))] /\
   ~ wf_program [ROp (AMacroDefI "m" [] [AOp 0x58 None]); ROp (AOp 0x60 (Some (EMacro "m" [])))] /\
   ~ wf_program [ROp (ALabel "lbl"); RScope [ROp (APush (ELabel "lbl"))]] /\
-  (* accepted, as the code does: an expression macro invoked with FEWER arguments than
-     parameters whose body does not read the missing parameter; a surplus argument that would
-     divide by zero (it is never evaluated) *)
-  assemble [ROp (AMacroDefE "h" ["x"] (ENum 5)); ROp (AOp 0x60 (Some (EMacro "h" [])))] = Ok [0x60; 0x05]%N /\
+  (* an expression macro invoked with FEWER arguments than parameters, although its body does
+     not read the missing parameter (accepted before the `fix:` commit of D32) *)
+  ~ wf_program [ROp (AMacroDefE "h" ["x"] (ENum 5)); ROp (AOp 0x60 (Some (EMacro "h" [])))] /\
+  assemble [ROp (AMacroDefE "h" ["x"] (ENum 5)); ROp (AOp 0x60 (Some (EMacro "h" [])))] = err1 "UndeclaredVariableMacro" "x" /\
+  (* accepted, as the code does: a surplus argument that would divide by zero (it is never
+     evaluated) *)
   assemble [ROp (AMacroDefE "g" ["x"] (EVar "x")); ROp (AOp 0x60 (Some (EMacro "g" [ENum 1; EDivide (ENum 1) (ENum 0)])))]
     = Ok [0x60; 0x01]%N.
 Proof.
@@ -246,6 +269,13 @@ Proof.
   split; vm_compute; reflexivity.
 Qed.
 
+Check C13_expression_macro_arity : forall labels macros f vs n args d v,
+  macros n = Some (Some d) -> (length args < length (em_params d))%nat ->
+  eval labels macros f vs (EMacro n args) <> Ok v.
+Check C13_expression_macro_missing_argument : forall labels macros f vs n args d vals,
+  macros n = Some (Some d) -> (length args < length (em_params d))%nat ->
+  Forall2 (fun a v => eval labels macros (S f) vs a = Ok v) args vals ->
+  eval labels macros (S f) vs (EMacro n args) = err1 "UndefinedVariable" (nth (length args) (em_params d) "").
 Check C13_success_implies_well_formed_partial : forall ops bytes,
   assemble ops = Ok bytes ->
   exists macros st w pos,
